@@ -258,19 +258,26 @@ Definition task_success (E : env) (t : N) (s : state) : list wqevent * state :=
             | None => s0
             end in
   let '(_, _, s2) := integrate E (twork E t) (Some t) s1 in
+  (* all counters first (REPAIRED: the code decrements and finishes in one loop, so a child group
+     sharing the task with its parent is promoted with a stale counter), then the groups that
+     became complete *)
+  let s2' :=
+    fold_left (fun s g =>
+      match aget g (gnodes s) with
+      | Some n => set_gnodes (aset g (mkG (gn_children n) (gn_tasks n) (pred (gn_pending n))) (gnodes s)) s
+      | None => s
+      end) (tgroups E t) s2 in
   let '(evs, ngs, nss, s3) :=
     fold_left (fun (st : list wqevent * list N * list N * state) g =>
       let '(evs, ngs, nss, s) := st in
       match aget g (gnodes s) with
       | Some n =>
-          let n' := mkG (gn_children n) (gn_tasks n) (pred (gn_pending n)) in
-          let s' := set_gnodes (aset g n' (gnodes s)) s in
-          if memN g (roots s') && Nat.eqb (gn_pending n') 0 then
-            let '(e, cg, cs, s'') := finish_group_success E g n' s' in
+          if memN g (roots s) && Nat.eqb (gn_pending n) 0 then
+            let '(e, cg, cs, s'') := finish_group_success E g n s in
             (evs ++ e, ngs ++ cg, nss ++ cs, s'')
-          else (evs, ngs, nss, s')
+          else st
       | None => st
-      end) (tgroups E t) ([], [], [], s2) in
+      end) (tgroups E t) ([], [], [], s2') in
   (evs, start_new_work ngs nss s3).
 
 (* ---------------------------------------------------------------- _task_failure *)
